@@ -165,6 +165,8 @@ class Interp(Engine):
                 vb = va
             return OptV(z3.If(c, na, nb), self.ite(c, va, vb))
         ka, kb = kind_of(a), kind_of(b)
+        if "bv" in (ka, kb) and ka in ("int", "bool", "bv") and kb in ("int", "bool", "bv"):
+            return Sym(z3.If(c, self.tobv(a), self.tobv(b)), "bv")
         if ka in ("int", "real", "bool") and kb in ("int", "real", "bool"):
             if ka == kb == "bool":
                 return Sym(z3.If(c, zbool(a), zbool(b)), "bool")
@@ -469,9 +471,51 @@ class Interp(Engine):
     def x_Continue(self, s):
         raise _Cont()
 
+    merge_ifs = False
+
+    def _mergeable(self, stmts):
+        for st in stmts:
+            if isinstance(st, ast.Assign):
+                if not all(isinstance(t, ast.Name) for t in st.targets):
+                    return False
+                val = st.value
+            elif isinstance(st, ast.AugAssign):
+                if not isinstance(st.target, ast.Name):
+                    return False
+                val = st.value
+            elif isinstance(st, ast.Pass):
+                continue
+            else:
+                return False
+            for n in ast.walk(val):
+                if isinstance(n, (ast.Call, ast.Subscript, ast.Attribute, ast.BoolOp, ast.IfExp, ast.Div,
+                                  ast.Mod, ast.FloorDiv)):
+                    return False
+        return True
+
     def x_If(self, s):
         c = self.truth(self.eval(s.test))
         self.cur_line = s.lineno
+        if self.merge_ifs and not isinstance(c, bool) and self._mergeable(s.body) and self._mergeable(s.orelse):
+            c = z3.simplify(c)
+            if not (z3.is_true(c) or z3.is_false(c)):
+                env0 = dict(self.frame.env)
+                self.exec_block(s.body)
+                env1 = self.frame.env
+                self.frame.env = dict(env0)
+                self.exec_block(s.orelse)
+                env2 = self.frame.env
+                merged = dict(env0)
+                for k in set(env1) | set(env2):
+                    v1, v2 = env1.get(k, _UNBOUND), env2.get(k, _UNBOUND)
+                    if v1 is v2:
+                        merged[k] = v1
+                    elif v1 is _UNBOUND or v2 is _UNBOUND:
+                        raise Unsupported("if-merge: %s bound on one side only (line %d)" % (k, s.lineno))
+                    else:
+                        merged[k] = self.ite(c, v1, v2)
+                self.frame.env = merged
+                return
         if self.branch(c):
             self.exec_block(s.body)
         else:
@@ -678,6 +722,8 @@ class Interp(Engine):
             n = B.iter_len(self, it)
             i = zint(fr.env[ivar])
             self.assume(i >= 0)
+            if not isinstance(it, (ListV,)):
+                self.assume(i <= n)        # immutable iterable: the index never overtakes the length
             go = self.branch(i < n)
         if not go:
             self.exec_block(s.orelse)
